@@ -57,9 +57,9 @@ theorem C16_session_invariant_partial (cfg : CloneCfg) (hc : cfg.clauses = true)
 
 /-- the schema of the harness model `U16` -/
 def c16Schema : Schema :=
-  { ncols := 8,
+  { ncols := 9,
     kind := fun c => match c with
-      | 0 => .pk | 4 => .clientDefault 7 | 5 => .dbDefault 8 | 6 => .autoCreate | 7 => .autoUpdate | _ => .plain }
+      | 0 => .pk | 4 => .clientDefault 7 | 5 => .dbDefault 8 | 6 => .autoCreate | 7 => .autoUpdate | 8 => .dbNull | _ => .plain }
 
 def c16Empty : Store := { rows := fun _ => none, next := 1 }
 
@@ -184,6 +184,7 @@ theorem C16_inserted_row (sch : Schema) (next : Nat) (v : Row) (c : Nat) :
       | .softDelete => v c
       | .clientDefault d => if v c = 0 then d else v c
       | .dbDefault d => if v c = 0 then d else v c
+      | .dbNull => v c
       | .autoCreate => if v c = 0 then NOW else v c
       | .autoUpdate => if v c = 0 then NOW else v c := by
   unfold insertedRow proposed fillCreate
@@ -247,6 +248,7 @@ theorem C16_conflict_update_all (sch : Schema) (hw : sch.WF) (s : Store) (v : Ro
         match sch.kind c with
         | .pk => old c
         | .dbDefault _ => old c
+        | .dbNull => if v c = 0 then old c else v c
         | .autoCreate => old c
         | .autoUpdate => NOW
         | .clientDefault d => if v c = 0 then d else v c
@@ -277,7 +279,238 @@ theorem C16_conflict_update_all (sch : Schema) (hw : sch.WF) (s : Store) (v : Ro
         simp only [List.any_eq_true]
         exact ⟨c, by simp [hc], hh⟩
     simp only [updateAllAsg, inInsert] at hnone
-    cases hkind : sch.kind c <;> simp_all
+    cases hkind : sch.kind c <;> simp_all [fillCreate]
+
+/-! ## upserts whose INSERT lists only some of the model's columns (map values, Select/Omit, omitted
+    database-default columns) -/
+
+/-- the key a Create through `src` targets -/
+def keyFrom (sch : Schema) (s : Store) (src : Src) (v : Row) : Nat :=
+  proposedIns sch s.next (src.listed sch v) (src.fill sch v) 0
+
+/-- STRUCTURAL FACT of the UpdateAll expansion (create.go: `for _, column := range values.Columns`): a column
+    that the INSERT does not list is never in DO UPDATE SET — whatever the source, the value, Select/Omit. -/
+theorem C16_update_all_only_listed (sch : Schema) (src : Src) (v : Row) (c : Nat)
+    (h : src.listed sch v c = false) : updateAllIns sch src (src.listed sch v) c = none := by
+  simp [updateAllIns, h]
+
+/-- the generalisation is conservative: an unrestricted struct goes through `insertFrom` exactly as through
+    `insertRow`, so every `C16_conflict_*` / `C16_save_*` theorem above is about the same function -/
+theorem C16_insertFrom_struct_all (sch : Schema) (s : Store) (rule : Option Rule) (v : Row) :
+    insertFrom sch s rule (.struct [] []) v = insertRow sch s rule v := by
+  have hl : (Src.struct [] []).listed sch v = inInsert sch (fillCreate sch v) := by
+    funext c
+    cases hk : sch.kind c <;> simp [Src.listed, allowed, mention, inInsert, fillCreate, hk]
+  have hf : (Src.struct [] []).fill sch v = fillCreate sch v := by
+    funext c
+    cases hk : sch.kind c <;> simp [Src.fill, Src.listed, allowed, mention, fillCreate, hk]
+  have hp : proposedIns sch s.next (inInsert sch (fillCreate sch v)) (fillCreate sch v) = proposed sch s.next (fillCreate sch v) := by
+    funext c
+    cases hk : sch.kind c <;> simp [proposedIns, proposed, inInsert, fillCreate, hk]
+    all_goals (first | (intro h; omega) | (split <;> simp_all))
+  have hu : updateAllIns sch (.struct [] []) (inInsert sch (fillCreate sch v)) = updateAllAsg sch (fillCreate sch v) := by
+    funext c
+    cases hk : sch.kind c <;> simp [updateAllIns, updateAllAsg, Src.updatable, allowed, mention, hk]
+  have hr : ∀ r, resolveIns sch (.struct [] []) (inInsert sch (fillCreate sch v)) r = resolve sch (fillCreate sch v) r := by
+    intro r
+    cases r <;> simp [resolveIns, resolve, hu]
+  have hb : ∀ new, (Src.struct [] []).writeBack sch (fillCreate sch v) new = backfill sch (fillCreate sch v) new := fun _ => rfl
+  have hbp : backfill sch (fillCreate sch v) (proposed sch s.next (fillCreate sch v)) = proposed sch s.next (fillCreate sch v) := by
+    funext c
+    cases hk : sch.kind c <;> simp [backfill, proposed, hk]
+  simp only [insertFrom, insertRow, hl, hf, hp, hb, hbp]
+  split
+  · rfl
+  · cases rule with
+    | none => rfl
+    | some r => simp only [hr]
+
+/-- what `insertFrom` does when the targeted key holds a row -/
+theorem insertFrom_conflict (sch : Schema) (s : Store) (src : Src) (v old : Row) (r : Rule)
+    (hex : s.rows (keyFrom sch s src v) = some old) :
+    insertFrom sch s (some r) src v =
+      match resolveIns sch src (src.listed sch v) r with
+      | none => { store := s, val := src.fill sch v, ra := 0, err := .ok }
+      | some asg =>
+        { store := s.put (keyFrom sch s src v) (applyAsg old (proposedIns sch s.next (src.listed sch v) (src.fill sch v)) asg),
+          val := src.writeBack sch (src.fill sch v) (applyAsg old (proposedIns sch s.next (src.listed sch v) (src.fill sch v)) asg),
+          ra := 1, err := .ok } := by
+  unfold keyFrom at hex
+  simp only [insertFrom, keyFrom, hex]
+  rfl
+
+/-- key present, UpdateAll, ANY source: column by column — a column is overwritten only if the INSERT lists it
+    and Select/Omit allow it and it is not the primary key / a database-default column / the auto-create time;
+    every other column (in particular every column that was NOT SUPPLIED) keeps its stored value, and every
+    other row stays. -/
+theorem C16_partial_update_all (sch : Schema) (s : Store) (src : Src) (v old : Row)
+    (hex : s.rows (keyFrom sch s src v) = some old) :
+    (∃ new, (insertFrom sch s (some .updateAll) src v).store.rows (keyFrom sch s src v) = some new ∧
+      ∀ c, c < sch.ncols → new c =
+        if (src.listed sch v c && src.updatable c) = true then
+          match sch.kind c with
+          | .pk => old c
+          | .dbDefault _ => old c
+          | .autoCreate => old c
+          | .autoUpdate => NOW
+          | _ => src.fill sch v c
+        else old c) ∧
+    (insertFrom sch s (some .updateAll) src v).err = .ok ∧
+    (∀ j, j ≠ keyFrom sch s src v → (insertFrom sch s (some .updateAll) src v).store.rows j = s.rows j) := by
+  rw [insertFrom_conflict sch s src v old _ hex]
+  by_cases hany : ((List.range sch.ncols).any fun c => (updateAllIns sch src (src.listed sch v) c).isSome) = true
+  · simp only [resolveIns, hany, if_true]
+    refine ⟨⟨applyAsg old (proposedIns sch s.next (src.listed sch v) (src.fill sch v)) (updateAllIns sch src (src.listed sch v)),
+      by simp [Store.put], ?_⟩, trivial, fun j hj => by simp [Store.put, hj]⟩
+    intro c _
+    cases hlu : (src.listed sch v c && src.updatable c)
+    · simp [applyAsg, updateAllIns, hlu]
+    · have hl : src.listed sch v c = true := by simp only [Bool.and_eq_true] at hlu; exact hlu.1
+      have hu : src.updatable c = true := by simp only [Bool.and_eq_true] at hlu; exact hlu.2
+      cases hk : sch.kind c <;> simp [applyAsg, updateAllIns, proposedIns, hl, hu, hk]
+  · simp only [resolveIns, hany]
+    refine ⟨⟨old, hex, ?_⟩, rfl, fun _ _ => rfl⟩
+    intro c hc
+    have hnone : (updateAllIns sch src (src.listed sch v) c).isSome = false := by
+      cases hh : (updateAllIns sch src (src.listed sch v) c).isSome with
+      | false => rfl
+      | true =>
+        exfalso; apply hany
+        simp only [List.any_eq_true]
+        exact ⟨c, by simp [hc], hh⟩
+    cases hlu : (src.listed sch v c && src.updatable c)
+    · simp
+    · simp only [updateAllIns, hlu, if_true] at hnone
+      cases hk : sch.kind c <;> simp_all
+
+/-- key present, DoNothing or UpdateAll, ANY source: a column the INSERT does not list keeps its stored value
+    (no bound on the column index needed) -/
+theorem C16_partial_keeps_unlisted (sch : Schema) (s : Store) (src : Src) (v old : Row) (r : Rule)
+    (hr : r = .doNothing ∨ r = .updateAll) (hex : s.rows (keyFrom sch s src v) = some old) :
+    ∃ new, (insertFrom sch s (some r) src v).store.rows (keyFrom sch s src v) = some new ∧
+      ∀ c, src.listed sch v c = false → new c = old c := by
+  rw [insertFrom_conflict sch s src v old _ hex]
+  rcases hr with hr | hr <;> subst hr
+  · exact ⟨old, hex, fun _ _ => rfl⟩
+  · by_cases hany : ((List.range sch.ncols).any fun c => (updateAllIns sch src (src.listed sch v) c).isSome) = true
+    · simp only [resolveIns, hany, if_true]
+      refine ⟨applyAsg old (proposedIns sch s.next (src.listed sch v) (src.fill sch v)) (updateAllIns sch src (src.listed sch v)),
+        by simp [Store.put], ?_⟩
+      intro c hc
+      simp [applyAsg, C16_update_all_only_listed sch src v c hc]
+    · simp only [resolveIns, hany]
+      exact ⟨old, hex, fun _ _ => rfl⟩
+
+/-- key present, DoUpdates, ANY source: exactly the named columns change; `excluded.col` of a column the
+    INSERT does not list is the column's database default (rowid / default / NULL) -/
+theorem C16_partial_do_updates (sch : Schema) (s : Store) (src : Src) (v old : Row) (as : List (Nat × Asg))
+    (hex : s.rows (keyFrom sch s src v) = some old) :
+    ∃ new, (insertFrom sch s (some (.doUpdates as)) src v).store.rows (keyFrom sch s src v) = some new ∧
+      ∀ c, new c = match lookupAsg as c with
+        | none => old c
+        | some .excluded => proposedIns sch s.next (src.listed sch v) (src.fill sch v) c
+        | some (.lit x) => x := by
+  rw [insertFrom_conflict sch s src v old _ hex]
+  simp only [resolveIns]
+  refine ⟨applyAsg old (proposedIns sch s.next (src.listed sch v) (src.fill sch v)) (lookupAsg as), by simp [Store.put], ?_⟩
+  intro c
+  simp only [applyAsg]
+  cases lookupAsg as c with
+  | none => rfl
+  | some a => cases a <;> rfl
+
+/-- key absent, ANY source and rule: the row is inserted; a listed column holds the supplied value, an
+    unlisted one its database default; nothing else changes -/
+theorem C16_partial_absent_inserts (sch : Schema) (s : Store) (rule : Option Rule) (src : Src) (v : Row)
+    (habs : s.rows (keyFrom sch s src v) = none) :
+    (insertFrom sch s rule src v).err = .ok ∧
+    (∀ j, j ≠ keyFrom sch s src v → (insertFrom sch s rule src v).store.rows j = s.rows j) ∧
+    ∃ new, (insertFrom sch s rule src v).store.rows (keyFrom sch s src v) = some new ∧
+      ∀ c, new c = if src.listed sch v c then src.fill sch v c else
+        match sch.kind c with
+        | .pk => s.next
+        | .dbDefault d => d
+        | .clientDefault d => d
+        | _ => 0 := by
+  have e : insertFrom sch s rule src v =
+      { store := { rows := fun j => if j = keyFrom sch s src v then some (proposedIns sch s.next (src.listed sch v) (src.fill sch v)) else s.rows j,
+                   next := max s.next (keyFrom sch s src v + 1) },
+        val := src.writeBack sch (src.fill sch v) (proposedIns sch s.next (src.listed sch v) (src.fill sch v)), ra := 1, err := .ok } := by
+    unfold keyFrom at habs
+    simp only [insertFrom, keyFrom, habs]
+    rfl
+  rw [e]
+  refine ⟨rfl, fun j hj => by simp [hj], proposedIns sch s.next (src.listed sch v) (src.fill sch v), by simp, fun c => ?_⟩
+  simp only [proposedIns]
+  split <;> rfl
+
+/-- non-vacuity: `Model(&U{}).Clauses(OnConflict{UpdateAll}).Create(map{id:1, age:2})` on the table holding
+    (id 1, name v1): age becomes 2, the name — not supplied — stays v1 -/
+example : ((insertFrom c16Schema c16OneRow (some .updateAll) (.map [0, 2]) (fun c => if c = 0 then 1 else if c = 2 then 2 else 0)).store.rows 1).map
+    (fun r => (r 1, r 2)) = some (1, 2) := by decide
+example : ∃ old, c16OneRow.rows (keyFrom c16Schema c16OneRow (.map [0, 2]) (fun c => if c = 0 then 1 else if c = 2 then 2 else 0)) = some old := ⟨_, rfl⟩
+/-- a Select-restricted struct: `Select("id","age")`: name is not listed -/
+example : (Src.struct [0, 2] []).listed c16Schema (fun _ => 1) 1 = false ∧ (Src.struct [0, 2] []).listed c16Schema (fun _ => 1) 2 = true := by decide
+
+/-! ## reusable handles: a handle derived after Attrs/Assign is used for several finishers -/
+
+/-- REGENERATED FACT (finisher_api.go): none of the finishers assigns a field of — or calls a mutating method
+    on — the Statement of its RECEIVER: every such write goes through `db.getInstance()` / `db.Session(…)` /
+    `db.Limit(…)`, i.e. through a statement derived for this call. (Any field: conditions, attrs, assigns, Dest,
+    Selects …; the property's finishers and the ones they call: Find, Create, Updates.) -/
+theorem C16_finishers_leave_receiver :
+    ∀ w ∈ Gen.finisherStmtWrites,
+      w.fn ∈ ["DB.Save", "DB.Create", "DB.FirstOrInit", "DB.FirstOrCreate", "DB.Find", "DB.Updates"] → w.recv = false := by decide
+
+/-- regenerated fact (since `fix:` 1b48a88): `clone()` carries clauses, attrs and assigns over -/
+theorem C16_gen_clone_full : genCfg.full := ⟨by decide, by decide, by decide⟩
+
+theorem C16_gen_recv_writes_none : ∀ k f, genRecvW k f = false := by
+  intro k f
+  cases k <;> cases f <;> decide
+
+theorem stmtAfter_id {w : RecvW} (hw : ∀ k f, w k f = false) (st : Stmt) (k : FinKind) : stmtAfter w st k = st := by
+  simp [stmtAfter, hw]
+
+/-- REUSE = FRESH CHAINS, for any tree whose finishers do not write their receiver's statement: using the handle
+    `base.<pre>` for any number of finishers in a row (each preceded by any further chain steps) gives, use by
+    use, exactly what the chains `base.<pre>.<steps>.<finisher>` written from scratch give on the evolving
+    table — table, record, RowsAffected, error. Nothing is left over from a previous use and nothing is lost. -/
+theorem C16_reuse_is_fresh_chain (cfg : CloneCfg) (w : RecvW) (hw : ∀ k f, w k f = false) (sch : Schema)
+    (pre : List Step) (uses : List (List Step × Fin)) :
+    ∀ s : Store, useSeq cfg w sch s (Handle.base.run cfg pre) uses = chainSeq cfg sch pre s uses := by
+  induction uses with
+  | nil => intro s; rfl
+  | cons u rest ih =>
+    intro s
+    simp only [useSeq, chainSeq, stmtAfter_id hw, runChain, run_append, ite_self]
+    rw [ih]
+
+/-- WHAT HOLDS FOR THE CURRENT SOURCE TREE (clone facts + finisher-write facts, both regenerated): a handle
+    derived by Session/WithContext anywhere — in particular AFTER Attrs/Assign — can be used k times; every use
+    behaves like the fresh chain, which in turn (clone() copies everything) is the finisher applied to the
+    accumulated conditions / OnConflict / last Attrs / last Assign of `pre ++ steps`. -/
+theorem C16_reuse_current_tree (sch : Schema) (pre : List Step) (uses : List (List Step × Fin)) (s : Store) :
+    useSeq genCfg genRecvW sch s (Handle.base.run genCfg pre) uses = chainSeq genCfg sch pre s uses ∧
+    ∀ (t : Store) (u : List Step × Fin),
+      runChain genCfg sch t (pre ++ u.1) u.2 = finishS sch t ((pre ++ u.1).foldl stmtStep Stmt.empty) u.2 :=
+  ⟨C16_reuse_is_fresh_chain genCfg genRecvW C16_gen_recv_writes_none sch pre uses s,
+   fun t u => C16_chain_semantics genCfg C16_gen_clone_full.1 sch t (pre ++ u.1) u.2 (Or.inl C16_gen_clone_full)⟩
+
+/-- the shape of fault this excludes: FirstOrCreate "consuming" the attrs of its receiver -/
+def c16ConsumeAttrs : RecvW := fun k f => k == .firstOrCreate && f == .attrs
+
+/-- `h := db.Where(U{Name:"v1"}).Attrs(U{Age:2}).Session(&Session{})` ; `h.FirstOrCreate(&a)` ; `h.Where("name","v2").FirstOrInit(&b)` -/
+def c16ReusePre : List Step := [.where_ [.eq 1 1], .attrs (some (.structV [(2, 2)])), .session]
+def c16ReuseUses : List (List Step × Fin) := [([], .firstOrCreate []), ([.where_ [.eq 1 2]], .firstOrInit [])]
+
+/-- COUNTEREXAMPLE for any tree in which FirstOrCreate clears its receiver's attrs: the second use of the
+    handle loses the Attrs (Age 0) although the same chain written from scratch yields Age 2 -/
+theorem C16_reuse_counterexample :
+    ((useSeq ⟨true, true, true⟩ c16ConsumeAttrs c16Schema c16Empty (Handle.base.run ⟨true, true, true⟩ c16ReusePre) c16ReuseUses).map
+        (fun o => o.val 2)) = [2, 0] ∧
+    ((chainSeq ⟨true, true, true⟩ c16Schema c16ReusePre c16Empty c16ReuseUses).map (fun o => o.val 2)) = [2, 2] := by
+  decide
 
 /-! ## Save -/
 
@@ -552,13 +785,13 @@ def c16RunSeq (cfg : CloneCfg) (sch : Schema) (s : Store) : List (List Step × F
     above (`C16_save_*`, `C16_conflict_*`, …, all stated for well-formed tables) apply at EVERY step of
     every history, of any length, from any well-formed start. -/
 theorem C16_wf_invariant (cfg : CloneCfg) (sch : Schema) (hw : sch.WF) (progs : List (List Step × Fin)) :
-    ∀ s : Store, s.WF → (∀ p ∈ progs, ∀ st ∈ p.1, st.ok) → (c16RunSeq cfg sch s progs).WF := by
+    ∀ s : Store, s.WF → (∀ p ∈ progs, (∀ st ∈ p.1, st.ok) ∧ p.2.ok) → (c16RunSeq cfg sch s progs).WF := by
   induction progs with
   | nil => intro s hs _; exact hs
   | cons p ps ih =>
     intro s hs hall
     apply ih
-    · exact finish_wf hw hs (run_ok cfg p.1 _ empty_ok (hall p (by simp))) p.2
+    · exact finish_wf hw hs (run_ok cfg p.1 _ empty_ok (hall p (by simp)).1) p.2 (hall p (by simp)).2
     · intro q hq
       exact hall q (by simp [hq])
 
@@ -568,8 +801,8 @@ example : c16Schema.WF := ⟨by decide, fun c => by
   · intro h
     match c with
     | 0 => rfl
-    | 1 | 2 | 3 | 4 | 5 | 6 | 7 => simp [c16Schema] at h
-    | n + 8 => simp [c16Schema] at h
+    | 1 | 2 | 3 | 4 | 5 | 6 | 7 | 8 => simp [c16Schema] at h
+    | n + 9 => simp [c16Schema] at h
   · intro h; subst h; rfl⟩
 example : c16Empty.WF := ⟨by decide, fun k r h => by simp [c16Empty] at h⟩
 example : ∀ st ∈ c16CexChain2, st.ok := by
